@@ -1,6 +1,7 @@
 import PycsepVerif.Proofs.ReprDecimals
 import PycsepVerif.Properties.C02
 import PycsepVerif.Properties.C02_Decimal
+import PycsepVerif.Properties.C02_Float
 /-!
 # C02 — `cleaner_range` / `magnitude_bins` with `num_decimals` INSIDE the model
 
@@ -12,7 +13,7 @@ start + k·step" — is proved for `cleanerRangeAuto`, the function with no outs
 decimals Python prints for them.
 -/
 namespace Bin1d
-open Soft64 DecimalText ReprDec
+open Soft64 DecimalText ReprDec Region
 
 /-- **the decimals `num_decimals` reports are enough** (any rational, in particular any float): `repr(x)` denotes `z/10^d` with
 `d = num_decimals(x)` -/
@@ -87,5 +88,156 @@ example : cleanerRangeAuto (1 / 2) (fl64 (12 / 10)) (fl64 (7 / 100)) = decimalGr
 
 -- the fallback path (a step that is not a short decimal: 17 decimals → the guard fails) is part of `cleanerRangeAuto` too
 example : cleanerRangeF (fl64 (-96 / 10)) (fl64 (-94 / 10)) (fsub (fl64 (-95 / 10)) (fl64 (-96 / 10))) 17 = none := by decide +kernel
+
+/-! ## the fallback branch of `cleaner_range` after fix D49 (steps that are not short decimals: 1/3, 1/30, 1/35, float noise)
+
+Before the fix the branch scaled by `max(10**num_decimals(start), 1/h)` and ROUNDED THE START to a multiple of the step when `1/h` won
+(`Region.fallbackRangeOld`; kernel-checked findings below). The repaired branch computes `n = int(floor((end − start)/h + 0.5))` and
+`start + arange(0, n+1)·h` (`Region.fallbackRange`): the first edge is `start` itself, edge k is `fl64(start + fl64(k·h))` (no
+accumulation), the count is exact, and where the returned grid is regular the binning clause of C02 holds on it. -/
+
+theorem fallbackRange_length (s e h : ℚ) :
+    (fallbackRange s e h).length = (⌊fadd (fdiv (fsub e s) h) (1 / 2)⌋ + 1).toNat := by
+  unfold fallbackRange
+  simp [rfloor_eq]
+
+theorem fallbackRange_getElem? (s e h : ℚ) (k : ℕ) (hk : k < (fallbackRange s e h).length) :
+    (fallbackRange s e h)[k]? = some (fadd s (fmul (k : ℚ) h)) := by
+  rw [fallbackRange_length] at hk
+  unfold fallbackRange
+  simp only [rfloor_eq]
+  rw [List.getElem?_map, List.getElem?_range hk]
+  rfl
+
+theorem fallback_first_edge (s e h : ℚ) (hs : fl64 s = s) (hne : 0 < (fallbackRange s e h).length) :
+    (fallbackRange s e h)[0]? = some s := by
+  rw [fallbackRange_getElem? s e h 0 hne]
+  simp [fadd, fmul, Soft64R.fl64_zero, hs]
+
+private theorem eta_le : pow2 (-1075) * 2 ^ 75 ≤ pow2 (-1000) ∧ pow2 (-1075) ≤ 1 / 2 ^ 200 := by decide +kernel
+
+theorem fallback_quotient_err (s e h : ℚ) (hh : pow2 (-1000) ≤ h) :
+    |fadd (fdiv (fsub e s) h) (1 / 2) - ((e - s) / h + 1 / 2)| ≤ 4 / 2 ^ 53 * (|e - s| / h + 1) := by
+  have hhpos : 0 < h := lt_of_lt_of_le (Soft64R.pow2_pos _) hh
+  have hη := Soft64R.pow2_pos (-1075)
+  obtain ⟨e1, e2⟩ := eta_le
+  have hηh : pow2 (-1075) / h ≤ 1 / 2 ^ 75 := by
+    rw [div_le_iff₀ hhpos]
+    have : pow2 (-1075) * 2 ^ 75 ≤ h := le_trans e1 hh
+    have h75 : (0 : ℚ) < 2 ^ 75 := by positivity
+    calc pow2 (-1075) = pow2 (-1075) * 2 ^ 75 / 2 ^ 75 := by field_simp
+      _ ≤ h / 2 ^ 75 := div_le_div_of_nonneg_right this h75.le
+      _ = 1 / 2 ^ 75 * h := by ring
+  unfold fadd fdiv fsub
+  have ea := Soft64R.fl64_err_le (e - s)
+  have eb := Soft64R.fl64_err_le (fl64 (e - s) / h)
+  have ec := Soft64R.fl64_err_le (fl64 (fl64 (e - s) / h) + 1 / 2)
+  rw [Bin1d.pow2_m53] at ea eb ec
+  set a := e - s with ha
+  set a1 := fl64 a with ha1
+  set b1 := fl64 (a1 / h) with hb1
+  set c1 := fl64 (b1 + 1 / 2) with hc1
+  set A := |a| / h with hA
+  have hA0 : 0 ≤ A := div_nonneg (abs_nonneg _) hhpos.le
+  -- |a1/h - a/h| ≤ u A + η/h
+  have d1 : |a1 / h - a / h| ≤ 1 / 2 ^ 53 * A + 1 / 2 ^ 75 := by
+    have : a1 / h - a / h = (a1 - a) / h := by ring
+    rw [this, abs_div, abs_of_pos hhpos]
+    have : |a1 - a| / h ≤ (|a| * (1 / 2 ^ 53) + pow2 (-1075)) / h := div_le_div_of_nonneg_right ea hhpos.le
+    have e3 : (|a| * (1 / 2 ^ 53) + pow2 (-1075)) / h = 1 / 2 ^ 53 * A + pow2 (-1075) / h := by rw [hA]; ring
+    linarith
+  have hb : |a1 / h| ≤ A + (1 / 2 ^ 53 * A + 1 / 2 ^ 75) := by
+    have : |a1 / h| ≤ |a / h| + |a1 / h - a / h| := by
+      have := abs_add_le (a / h) (a1 / h - a / h)
+      simpa using this
+    have e4 : |a / h| = A := by rw [abs_div, abs_of_pos hhpos]
+    linarith
+  have d2 : |b1 - a1 / h| ≤ |a1 / h| * (1 / 2 ^ 53) + 1 / 2 ^ 200 := by linarith
+  have hb1b : |b1| ≤ |a1 / h| + |b1 - a1 / h| := by
+    have := abs_add_le (a1 / h) (b1 - a1 / h)
+    simpa using this
+  have hc : |b1 + 1 / 2| ≤ |b1| + 1 / 2 := by
+    have := abs_add_le b1 (1 / 2)
+    rwa [abs_of_pos (by norm_num : (0 : ℚ) < 1 / 2)] at this
+  have d3 : |c1 - (b1 + 1 / 2)| ≤ |b1 + 1 / 2| * (1 / 2 ^ 53) + 1 / 2 ^ 200 := by linarith
+  have tri : |c1 - (a / h + 1 / 2)| ≤ |c1 - (b1 + 1 / 2)| + |b1 - a1 / h| + |a1 / h - a / h| := by
+    have h1 := abs_add_le (c1 - (b1 + 1 / 2)) ((b1 - a1 / h) + (a1 / h - a / h))
+    have h2 := abs_add_le (b1 - a1 / h) (a1 / h - a / h)
+    have : c1 - (a / h + 1 / 2) = (c1 - (b1 + 1 / 2)) + ((b1 - a1 / h) + (a1 / h - a / h)) := by ring
+    rw [this]; linarith
+  have hB : |a1 / h| ≤ 2 * A + 1 := by nlinarith
+  have hB1 : |b1| ≤ 3 * A + 2 := by nlinarith
+  nlinarith [hA0, d1, d2, d3, hb, hb1b, hc, tri, hB, hB1]
+
+/-- **the repaired fallback returns the exact count**: if the exact quotient `(end − start)/h + 1/2` lies at least
+`τ = 2^-51·(|end − start|/h + 1)` inside `[k, k+1)`, the returned grid has exactly `k + 1` edges -/
+theorem fallback_count_exact (s e h : ℚ) (hh : pow2 (-1000) ≤ h) (k : ℤ)
+    (hk1 : (k : ℚ) + 4 / 2 ^ 53 * (|e - s| / h + 1) ≤ (e - s) / h + 1 / 2)
+    (hk2 : (e - s) / h + 1 / 2 + 4 / 2 ^ 53 * (|e - s| / h + 1) < (k : ℚ) + 1) :
+    (fallbackRange s e h).length = (k + 1).toNat := by
+  rw [fallbackRange_length]
+  have herr := abs_le.mp (fallback_quotient_err s e h hh)
+  have : ⌊fadd (fdiv (fsub e s) h) (1 / 2)⌋ = k := by
+    rw [Int.floor_eq_iff]
+    constructor <;> linarith [herr.1, herr.2]
+  rw [this]
+
+/-- edge k of the repaired fallback lies within one rounding of the product and one of the sum of the exact `start + k·h` -/
+theorem fallback_edge_near (s e h : ℚ) (k : ℕ) (hk : k < (fallbackRange s e h).length) :
+    ∃ x, (fallbackRange s e h)[k]? = some x ∧
+      |x - (s + (k : ℚ) * h)| ≤ (|(k : ℚ) * h| * pow2 (-53) + pow2 (-1075)) +
+        (|s + fl64 ((k : ℚ) * h)| * pow2 (-53) + pow2 (-1075)) := by
+  refine ⟨_, fallbackRange_getElem? s e h k hk, ?_⟩
+  unfold fadd fmul
+  have e1 := Soft64R.fl64_err_le ((k : ℚ) * h)
+  have e2 := Soft64R.fl64_err_le (s + fl64 ((k : ℚ) * h))
+  have : fl64 (s + fl64 ((k : ℚ) * h)) - (s + (k : ℚ) * h)
+      = (fl64 (s + fl64 ((k : ℚ) * h)) - (s + fl64 ((k : ℚ) * h))) + (fl64 ((k : ℚ) * h) - (k : ℚ) * h) := by ring
+  rw [this]
+  have := abs_add_le (fl64 (s + fl64 ((k : ℚ) * h)) - (s + fl64 ((k : ℚ) * h))) (fl64 ((k : ℚ) * h) - (k : ℚ) * h)
+  linarith
+
+/-- when the guard of the main path fails, `cleaner_range` IS the repaired fallback -/
+theorem cleanerRangeAuto_fallback (s e h : ℚ) (hg : cleanerRangeF s e h (max (numDecimals s) (numDecimals h)) = none) :
+    cleanerRangeAuto s e h = fallbackRange s e h := by
+  unfold cleanerRangeAuto Region.cleanerRangeAll
+  rw [hg]
+
+/-- **C02 on the grids the fallback returns**: where the returned edge array is a `RegularF64Grid` (decidable: `regularGridB`), every
+float64 point that is `PointOK` gets an answer the property allows, and every edge opens its own bin -/
+theorem fallback_bins_ok (s e h : ℚ) (G : RegularF64Grid (fallbackRange s e h)) (rc : Bool) {p : ℚ}
+    (P : PointOK (fallbackRange s e h) p) :
+    bin1dF (cfg64 rc) (fallbackRange s e h) p ∈ allowed (cfg64 rc) (fallbackRange s e h) p ∧
+    ∀ j (hj : j < (fallbackRange s e h).length) (_ : PointOK (fallbackRange s e h) ((fallbackRange s e h).getD j 0)),
+      bin1dF (cfg64 rc) (fallbackRange s e h) ((fallbackRange s e h).getD j 0) = j :=
+  ⟨bin1dF_mem_allowed rc G P, fun j hj Pj => bin1dF_edge_own_bin rc G hj Pj⟩
+
+/-! ### kernel-checked findings: the code BEFORE fix D49 (`fallbackRangeOld`) displaced the start -/
+
+/-- the float 0.0712345678901234 (a 16-digit decimal: its scale 10^16 fails the guard, `1/h = 14.04 > 10 = 10**num_decimals(5.0)`) -/
+def hNoisy : ℚ := fl64 (712345678901234 / 10000000000000000)
+
+/-- FINDING D49 (old code): `cleaner_range(5.0, 6.0, 0.0712345678901234)[0] == 4.986419752308638`, not 5.0 -/
+theorem finding_cleaner_fallback_displaced_50 :
+    (cleanerRangeAutoOld 5 6 hNoisy).head? = some (fl64 (4986419752308638 / 1000000000000000)) ∧
+    (cleanerRangeAutoOld 5 6 hNoisy).head? ≠ some 5 := by decide +kernel
+
+/-- FINDING D49 (old code): `cleaner_range(0.3, 0.3 + 3/35, 1/35)[0] == 0.2857142857142857`, not 0.3 -/
+theorem finding_cleaner_fallback_displaced_035 :
+    (cleanerRangeAutoOld (fl64 (3 / 10)) (fadd (fl64 (3 / 10)) (fmul 3 (fl64 (1 / 35)))) (fl64 (1 / 35))).head?
+      = some (fl64 (2857142857142857 / 10000000000000000)) := by decide +kernel
+
+/-- … the repaired code returns the start itself, 15 edges up to 6.0 and 4 edges for the 1/35 grid (kernel evaluation) -/
+example : (cleanerRangeAuto 5 6 hNoisy).head? = some 5 ∧ (cleanerRangeAuto 5 6 hNoisy).length = 15 ∧
+    cleanerRangeF 5 6 hNoisy (max (numDecimals 5) (numDecimals hNoisy)) = none := by decide +kernel
+example : (cleanerRangeAuto (fl64 (3 / 10)) (fadd (fl64 (3 / 10)) (fmul 3 (fl64 (1 / 35)))) (fl64 (1 / 35))).head? = some (fl64 (3 / 10)) ∧
+    (cleanerRangeAuto (fl64 (3 / 10)) (fadd (fl64 (3 / 10)) (fmul 3 (fl64 (1 / 35)))) (fl64 (1 / 35))).length = 4 := by decide +kernel
+-- the hypotheses of `fallback_count_exact` (k = 14) and of `fallback_bins_ok` (regular grid) for cleaner_range(5.0, 6.0, 0.0712…)
+example : pow2 (-1000) ≤ hNoisy ∧ ((14 : ℤ) : ℚ) + 4 / 2 ^ 53 * (|(6 : ℚ) - 5| / hNoisy + 1) ≤ (6 - 5) / hNoisy + 1 / 2 ∧
+    (6 - 5) / hNoisy + 1 / 2 + 4 / 2 ^ 53 * (|(6 : ℚ) - 5| / hNoisy + 1) < ((14 : ℤ) : ℚ) + 1 := by
+  refine ⟨by decide +kernel, ?_, ?_⟩
+  · rw [abs_of_pos (by norm_num)]; decide +kernel
+  · rw [abs_of_pos (by norm_num)]; decide +kernel
+example : RegularF64Grid (fallbackRange 5 6 hNoisy) := regularGridB_sound (by decide +kernel)
 
 end Bin1d
